@@ -680,6 +680,14 @@ impl Doc for Node<Option<Primary>> {
                             ))
                         })?
                         .0
+                        .append(add_comment(
+                            RcDoc::nil(),
+                            get_trailing_comma_comment(
+                                el.last()?.loc.as_ref().map(|loc| loc.span),
+                                &mut context.tokens,
+                            )?,
+                            RcDoc::nil(),
+                        ))
                 },
                 add_comment(
                     RcDoc::text("["),
@@ -722,7 +730,15 @@ impl Doc for Node<Option<Primary>> {
                                 v,
                             ))
                         })?
-                        .0;
+                        .0
+                        .append(add_comment(
+                            RcDoc::nil(),
+                            get_trailing_comma_comment(
+                                ri.last()?.loc.as_ref().map(|loc| loc.span),
+                                &mut context.tokens,
+                            )?,
+                            RcDoc::nil(),
+                        ));
                     RcDoc::line().append(inits).append(RcDoc::line()).group()
                 },
                 add_comment(
@@ -794,7 +810,15 @@ impl Doc for Node<Option<MemAccess>> {
                                 ))
                             },
                         )?
-                        .0;
+                        .0
+                        .append(add_comment(
+                            RcDoc::nil(),
+                            get_trailing_comma_comment(
+                                args.last()?.loc.as_ref().map(|loc| loc.span),
+                                &mut context.tokens,
+                            )?,
+                            RcDoc::nil(),
+                        ));
                     RcDoc::line_()
                         .append(args)
                         .nest(context.config.indent_width)
@@ -975,8 +999,16 @@ impl Doc for Node<Option<Policy>> {
                 )
                 .append(vars_doc)
                 .append(add_comment(
+                    RcDoc::nil(),
+                    get_trailing_comma_comment(
+                        vars.get(2)?.loc.as_ref().map(|loc| loc.span),
+                        &mut context.tokens,
+                    )?,
+                    RcDoc::nil(),
+                ))
+                .append(add_comment(
                     RcDoc::text(")"),
-                    get_comment_after_end(
+                    get_comment_after_end_skipping_comma(
                         vars.get(2)?.loc.as_ref().map(|loc| loc.span),
                         &mut context.tokens,
                     )?,
